@@ -1,10 +1,13 @@
-"""run under a given PYTHONHASHSEED: load one dataset, print its canonical analysis"""
+"""run under a given PYTHONHASHSEED: load every dataset of the JSON list on stdin, print one canonical analysis per line"""
 import sys, os, json
 sys.path.insert(0, os.path.dirname(os.path.abspath(__file__)))
 import observe as ob
 from observe import pyham
 import props2
-d = json.load(sys.stdin)
-h = pyham.Ham(tree_file=d['nwk'], hog_file=d['xml'], orthoXML_as_string=True, use_internal_name=d['own'])
-c, _ = props2.canon_analysis(h)
-print(json.dumps(c, sort_keys=True))
+for d in json.load(sys.stdin):
+    try:
+        h = pyham.Ham(tree_file=d['nwk'], hog_file=d['xml'], orthoXML_as_string=True, use_internal_name=d['own'])
+        c, _ = props2.canon_analysis(h)
+        print(json.dumps(c, sort_keys=True))
+    except Exception as e:      # noqa
+        print(json.dumps(dict(error=type(e).__name__)))
